@@ -247,17 +247,16 @@ SortBy(q, acc, which) == IF Len(q) = 0 THEN acc ELSE SortBy(Tail(q), InsertBy(ac
 \* str.splitlines() of an abstract
 AbsLines(s) == LET p == Split(s, "\n") IN IF s = "" THEN <<>> ELSE IF p[Len(p)] = "" THEN SubSeq(p, 1, Len(p) - 1) ELSE p
 
-\* rfc1436.renderobjinfo + renderabstract (abstract_entries = always); an entry whose name is None
-\* raises TypeError: the menu stops there (the lines already written stay)
+\* rfc1436.renderobjinfo + renderabstract (abstract_entries = always); an entry whose name is None is shown
+\* under its selector (fix b667ec7; before: TypeError, the menu stopped there)
 Rendered(dir, e) ==
-    [type |-> IF e.type.s THEN e.type.v ELSE "0", name |-> e.name.v, sel |-> e.sel,
+    [type |-> IF e.type.s THEN e.type.v ELSE "0", name |-> IF e.name.s THEN e.name.v ELSE e.sel, sel |-> e.sel,
      host |-> IF e.host.s THEN e.host.v ELSE dir.srv.host,
      port |-> IF e.port.s THEN e.port.v ELSE dir.srv.port,
      abs  |-> IF e.abs.s THEN AbsLines(e.abs.v) ELSE <<>>]
 RECURSIVE RenderAll(_, _, _)
 RenderAll(dir, es, acc) ==
     IF Len(es) = 0 THEN [ok |-> TRUE, out |-> acc]
-    ELSE IF ~es[1].name.s THEN [ok |-> FALSE, out |-> acc]
     ELSE RenderAll(dir, Tail(es), Append(acc, Rendered(dir, es[1])))
 
 \* UMNDirHandler.prepare + writedir
